@@ -5,6 +5,7 @@ package props
 import (
 	"bytes"
 	"fmt"
+	"path/filepath"
 	"sort"
 	"testing"
 
@@ -83,13 +84,13 @@ func iterRunner(c C18Case) (run func(cb func(Item) bool), unordered bool, errorI
 		for i, n := range nodes {
 			index[n] = i
 		}
+		// one iterator value, ranged over again for every (interrupted) run
+		it := root.PostOrder()
+		if c.Iter == "preorder" {
+			it = root.PreOrder()
+		}
 		return func(cb func(Item) bool) {
-			f := func(n *newick.Node) bool { return cb(Item{Rec: fmt.Sprintf("node %d", index[n])}) }
-			if c.Iter == "preorder" {
-				root.PreOrder()(f)
-			} else {
-				root.PostOrder()(f)
-			}
+			it(func(n *newick.Node) bool { return cb(Item{Rec: fmt.Sprintf("node %d", index[n])}) })
 		}, false, false, true
 	case "foreach":
 		tr := trie.New()
@@ -111,8 +112,9 @@ func iterRunner(c C18Case) (run func(cb func(Item) bool), unordered bool, errorI
 			return nil, false, false, false
 		}
 		seq := bytes.Clone(c.Seq)
+		it := sequtil.CanonicalSubsequences(seq, c.K)
 		return func(cb func(Item) bool) {
-			sequtil.CanonicalSubsequences(seq, c.K)(func(b []byte) bool { return cb(Item{Rec: string(b)}) })
+			it(func(b []byte) bool { return cb(Item{Rec: string(b)}) })
 		}, false, false, true
 	}
 	format, file := c.Iter, false
@@ -125,8 +127,13 @@ func iterRunner(c C18Case) (run func(cb func(Item) bool), unordered bool, errorI
 	}
 	text := c.Text.Render(false)
 	if file {
+		if c.Text.Raw == nil && len(c.Text.Lines) == 0 {
+			// no input at all: the path that cannot be opened
+			missing := filepath.Join(scratchDir(), "no-such-dir", "missing."+format)
+			return codec.FileSeq(missing), false, codec.ErrorIsLast, true
+		}
 		path := writeTemp(text, "."+format)
-		return func(cb func(Item) bool) { codec.File(path, cb) }, false, codec.ErrorIsLast, true
+		return codec.FileSeq(path), false, codec.ErrorIsLast, true
 	}
 	return func(cb func(Item) bool) { codec.Reader(bytes.NewReader(text), cb) }, false, codec.ErrorIsLast, true
 }
@@ -235,6 +242,11 @@ func exhaustiveC18(thorough bool, emit func(C18Case) bool) {
 			if !emit(C18Case{Iter: f, Text: StreamText{Raw: gen.B(in)}}) || !emit(C18Case{Iter: f + "-file", Text: StreamText{Raw: gen.B(in)}}) {
 				return
 			}
+		}
+	}
+	for _, f := range codecNames {
+		if !emit(C18Case{Iter: f + "-file"}) { // no text: File on a path that cannot be opened
+			return
 		}
 	}
 	maxN := 6
